@@ -31,6 +31,16 @@ func NewUDPClient(local netip.Addr) (*UDPClient, error) {
 	return &UDPClient{Conn: c}, nil
 }
 
+// NewUDPClientAt is NewUDPClient with a fixed local port.
+func NewUDPClientAt(local netip.AddrPort) (*UDPClient, error) {
+	c, err := net.ListenUDP("udp", net.UDPAddrFromAddrPort(local))
+	if err != nil {
+		return nil, err
+	}
+	_ = c.SetReadBuffer(4 << 20)
+	return &UDPClient{Conn: c}, nil
+}
+
 func (c *UDPClient) Close()                { c.Conn.Close() }
 func (c *UDPClient) Local() netip.AddrPort { return c.Conn.LocalAddr().(*net.UDPAddr).AddrPort() }
 
